@@ -4,6 +4,7 @@ import (
 	"context"
 	"errors"
 	"fmt"
+	"runtime"
 	"sync"
 	"sync/atomic"
 	"time"
@@ -234,7 +235,7 @@ func c02RangePkg(c *core.Ctx) {
 	} else if pre > 0 {
 		cons.Commit()
 	}
-	mode := core.Pick(c.Rng, "false", "panic", "geterr", "commiterr", "cancel", "drain-then-cancel")
+	mode := core.Pick(c.Rng, "false", "panic", "geterr", "commiterr", "cancel", "drain-then-cancel", "goexit")
 	k := c.Rng.IntN(n - pre) // the step (0-based range index) at which the fault happens
 	rc := &recCons{Consumer: cons}
 	switch mode {
@@ -259,6 +260,9 @@ func c02RangePkg(c *core.Ctx) {
 				return false
 			case "panic":
 				panic("deliberate callback panic")
+			case "goexit":
+				// the callback never returns: its goroutine exits (what t.FailNow / t.Fatal do inside a callback)
+				runtime.Goexit()
 			case "cancel":
 				cancel()
 			}
@@ -310,6 +314,8 @@ func c02RangePkg(c *core.Ctx) {
 	case "panic":
 		wantNext = 100 + pre + k
 		wantPanic = true
+	case "goexit":
+		wantNext = 100 + pre + k // never committed (its callback did not return); first in line for the next read
 	case "geterr":
 		wantNext = 100 + pre + k
 		wantErr = "injected"
@@ -323,7 +329,7 @@ func c02RangePkg(c *core.Ctx) {
 		wantNext = 100 + n
 		wantErr = "context"
 	}
-	if pendingBefore > 0 && k == 0 && (mode == "panic" || mode == "geterr" || mode == "commiterr") {
+	if pendingBefore > 0 && k == 0 && (mode == "panic" || mode == "geterr" || mode == "commiterr" || mode == "goexit") {
 		wantNext = 100 // the failure came before Range's first commit: the caller's own uncommitted reads are rolled back with it
 	}
 	if wantNext >= 100+n {
